@@ -16,13 +16,13 @@ import (
 // Evaluation of contract expressions into SMT terms
 
 type cenv struct {
-	x    *vc
-	vars map[string]Val
-	st   *state
-	old  *state
-	pkg  *types.Package
-	fr   *frame
-	hdr  *ssa.BasicBlock
+	x     *vc
+	vars  map[string]Val
+	st    *state
+	old   *state
+	pkg   *types.Package
+	fr    *frame
+	hdr   *ssa.BasicBlock
 	bound map[string]Val
 	depth int
 }
@@ -318,6 +318,24 @@ func (x *vc) evalIdent(env *cenv, name string) Val {
 			}
 			x.cfail("$pos: this loop does not range over a string")
 		}
+		// "$i<k>": the hidden index of range loop k (index of the element processed last; -1 before the first)
+		if strings.HasPrefix(name, "$i") {
+			if k, err := strconv.Atoi(name[2:]); err == nil {
+				for _, l := range env.fr.loops {
+					if l.ordinal != k {
+						continue
+					}
+					for _, instr := range l.header.Instrs {
+						if phi, ok := instr.(*ssa.Phi); ok && phi.Comment == "rangeindex" {
+							if v, ok := env.fr.vals[phi]; ok {
+								return v
+							}
+						}
+					}
+				}
+				x.cfail("%s: loop %d is not a range loop over a slice or array (or not entered yet)", name, k)
+			}
+		}
 		// a variable re-assigned in the loop (phi at the header) shadows the parameter of the same name
 		for _, instr := range env.hdr.Instrs {
 			phi, ok := instr.(*ssa.Phi)
@@ -443,6 +461,10 @@ func (x *vc) selField(env *cenv, base Val, name string, e *cexpr) Val {
 				if len(env.bound) == 0 {
 					// values stored in a typed heap location satisfy their type's representation invariant
 					x.assume("true", x.typeInv(rd, ft, nil))
+					if x.nn("field", fieldKey(pt.Elem(), i)) && base.T != "" {
+						// declared data-structure invariant (holds for every existing object of the type)
+						x.assume("true", implies(not(eq(base.T, "0")), x.nonNilFormula(Val{T: rd, Typ: ft})))
+					}
 				}
 				return Val{T: rd, Typ: ft}
 			}
